@@ -129,6 +129,11 @@ def run_case(case, ctx):
         bl = rng.choice([None, None, 0, total, total - 1, total // 2, "1K", "0.5K", 10 ** 9])
         if isinstance(bl, int) and bl < 0:
             bl = 0
+        if inv and rng.random() < 0.25:
+            # exact fit of a random most-recently-used suffix, spelled as a 'K' / 'M' string or an int
+            by_recency = sorted(inv.values(), key=lambda v: -v[1])
+            fit = sum(v[0] for v in by_recency[:rng.randint(1, len(by_recency))])
+            bl = rng.choice([fit, repr(fit / 1024) + "K", repr(fit / 1024 ** 2) + "M"])
         il = rng.choice([None, None, 0, 1, m - 1, m, m + 1])
         if il is not None and il < 0:
             il = None
@@ -162,7 +167,7 @@ def run_case(case, ctx):
             ctx.violation("reduce_size-raises", f"reduce_size raised {err} on {desc}", desc)
             return
         after = set(scan(d))
-        bln = None if bl is None else (int(1024 * float(bl[:-1])) if isinstance(bl, str) else bl)
+        bln = None if bl is None else (int({"K": 1024, "M": 1024 ** 2}[bl[-1]] * float(bl[:-1])) if isinstance(bl, str) else bl)
         # the deadline joblib computed lies in [t_before-age, t_after-age]; entries are >= 60 s away (or age == 0)
         dl = None if age is None else t_after - age
         S, E = after, set(inv) - after
